@@ -7,14 +7,14 @@
 //!   miri_sim <scenario-seed> plain|rayon
 //! (seed and mode come by argv, never by plain env: cargo-miri replays build-time env)
 
-use ixthreads::{build_scenario, eval};
+use ixthreads::{build_hammer, build_scenario, eval};
 use rayon::prelude::*;
 
 fn main() {
     let args: Vec<String> = std::env::args().collect();
     let seed: u64 = args.get(1).and_then(|s| s.parse().ok()).unwrap_or(1);
     let mode = args.get(2).map(|s| s.as_str()).unwrap_or("plain");
-    let sc = build_scenario(seed, 3, 3, 14, 7);
+    let sc = if mode == "hammer" { build_hammer(seed, 3, 10) } else { build_scenario(seed, 3, 6, 16, 8) };
     match mode {
         "rayon" => {
             let pool = rayon::ThreadPoolBuilder::new().num_threads(3).build().unwrap();
